@@ -46,9 +46,9 @@ CHECKS["C08"] = dict(
    technique="exhaustive native enumeration of the finite kernels + CBMC contract proofs of the composition (kernels replaced by contracts with uninterpreted digit functions)")
 
 CHECKS["C04"] = dict(
-   text="Bounded checks of the real parseNumber (+str2int, carry_one) against an RFC 8259 section 6 oracle: every text of at most 12 bytes of any shape; texts of at most 30 bytes of the shape [-]0.00...0 + 3 free bytes (zeros written with many digits); long-integer shapes of 21 / 23 / 27 bytes whose last 2 / 2 / 4 bytes are free (19/20-digit unsigned and negative integers at the uint64/int64 boundaries, 21+ digit integers); thorough tier: every text of at most 26 bytes. Decided: accept iff the grammar accepts and pos_ lands on the first byte that cannot continue the number; integers within uint64 / int64 delivered exactly with the right kind, others as Double; signed zero; the float converters are reached only with a non-zero mantissa and in-range table indices; a dropped non-zero digit is always reported (trunc) and never reaches an exact-mantissa path. parseFloatingFast's table indices: complete. Correct rounding of the converters is NOT decided.",
+   text="Bounded checks of the real parseNumber (+str2int, carry_one) against an RFC 8259 section 6 oracle: every text of at most 12 bytes of any shape; texts of at most 30 bytes of the shape [-]0.00...0 + 3 free bytes (zeros written with many digits); long-integer shapes of 21 / 23 / 27 bytes whose last 2 / 2 / 4 bytes are free (19/20-digit unsigned and negative integers at the uint64/int64 boundaries, 21+ digit integers); thorough tier: every text of at most 26 bytes. Decided: accept iff the grammar accepts and pos_ lands on the first byte that cannot continue the number; integers within uint64 / int64 delivered exactly with the right kind, others as Double; signed zero; the float converters are reached only with a non-zero mantissa and in-range table indices; a dropped non-zero digit is always reported (trunc) and never reaches an exact-mantissa path. parseFloatingFast's table indices: complete. AtofEiselLemire64 and ParseFloatingNormalFast (real bodies) satisfy a structural contract for all inputs: table index in range, shifts defined, success implies a normal finite double with the sign of the text. Correct rounding of the converters is NOT decided.",
    design_ref="DESIGN.md section 5 (C04)",
-   note="Converters (AtofEiselLemire64, ParseFloatingNormalFast, AtofNative) are contract-only stubs; simd_str2int is an assumed scalar contract. Two genuine defects found by this check were repaired (known_findings.json).",
+   note="Inside the parseNumber jobs the converters are stubs asserting their preconditions; simd_str2int is an assumed scalar contract. Two genuine defects found by this check were repaired (known_findings.json).",
    technique="CBMC bounded model checking of the mechanically sliced parseNumber with converter preconditions as assertions (bounded stand-in) + one complete loop-free proof")
 CHECKS["C15"] = dict(
    text="The shared x86 kernels whose contract is a deterministic function of the input (GetNonSpaceBits, GetNextToken<3|4>, StringBlock::Find + predicates, CopyAndGetEscapMask; GetStringBits frame) are proved against the same contract for the avx2 (VEC_LEN 32) and sse (VEC_LEN 16) instantiation, so their results are identical; SkipString is checked bounded (len <= 40) against one scalar oracle for both widths; the runtime-dispatch wrappers in x86_ifuncs/*.h are checked syntactically to be pure forwarders. SkipContainer, Quote, parseStringInplace, the DOM driver and serializer across configurations are NOT decided.",
